@@ -701,7 +701,7 @@ def ctx_value(ex, g, fid, args):
 
 @exact("op:ctx.Deadline")
 def ctx_deadline(ex, g, fid, args):
-    raise Unsupported("ctx.Deadline")
+    return Tup([[0, 0, None], False])
 
 
 def cancel_noop_closure():
